@@ -354,6 +354,10 @@ class SimSocket:
     def setsockopt(self, level: int, opt: int, val: Any) -> None:
         if self.closed:
             raise OSError(errno.EBADF, "Bad file descriptor")
+        if level == _socket.IPPROTO_TCP and opt == _socket.TCP_NODELAY and self.world.knobs.get("sock_fail") == "nodelay":
+            # e.g. the peer reset the connection right after it was established (EINVAL on BSD/macOS)
+            self.world.fire("setsockopt_error")
+            raise OSError(errno.EINVAL, "Invalid argument")
         if level == _socket.SOL_SOCKET and opt == _socket.SO_RCVBUF:
             limit = self.world.knobs.get("rcvbuf_limit")
             if limit is not None and val > limit:
@@ -376,6 +380,10 @@ class SimSocket:
         if self.closed:
             raise OSError(errno.EBADF, "Bad file descriptor")
         if self.peer is None or not self.connect_done or self.so_error:
+            raise OSError(errno.ENOTCONN, "Transport endpoint is not connected")
+        if self.world.knobs.get("sock_fail") == "getpeername":
+            # the peer reset the connection between connect() and getpeername()
+            self.world.fire("getpeername_error")
             raise OSError(errno.ENOTCONN, "Transport endpoint is not connected")
         return self.peer
 
@@ -596,7 +604,9 @@ class SimTransport(selector_events._SelectorSocketTransport):
         if exc is not None and (self._closing or self._conn_lost or w.knobs.get("write_raises_now")):
             # uvloop-style: write() on a closing transport raises synchronously
             w.fire("write_raises_sync")
-            raise exc("unable to perform operation on closed transport; the handler is closed")
+            e = exc("unable to perform operation on closed transport; the handler is closed")
+            e.sim_fault_id = w.new_id("F")  # type: ignore[attr-defined]  # an injected cause in its own right
+            raise e
         super().write(data)
 
     def close(self) -> None:
